@@ -417,7 +417,12 @@ func runCheck(cfg *propertyConfig, tier, repo string, seed int) int {
 		}
 		totalSolver += fe.SolverS
 		fe.Status = map[bool]string{true: "proved", false: "failed"}[okAll]
-		fe.Note = fmt.Sprintf("paths=%d; executed inline (transparent accessors): %s", r.Paths, strings.Join(r.Inlined, ", "))
+		if why, isBounded := boundedWhy[r.Name]; isBounded && okAll {
+			// a bounded stand-in is never counted as proved
+			fe.Status = "bounded"
+			fe.Note = "BOUNDED instance, not a proof: " + why + "; "
+		}
+		fe.Note += fmt.Sprintf("paths=%d; executed inline (transparent accessors): %s", r.Paths, strings.Join(r.Inlined, ", "))
 		for _, n := range r.Notes {
 			notes = append(notes, r.Name+": "+n)
 		}
@@ -520,8 +525,8 @@ func runCheck(cfg *propertyConfig, tier, repo string, seed int) int {
 	_ = os.MkdirAll(evidenceDir, 0o755)
 	b, _ := json.MarshalIndent(ev, "", " ")
 	_ = os.WriteFile(filepath.Join(evidenceDir, cfg.ID+".json"), b, 0o644)
-	fmt.Printf("%s tier=%s: %d obligations, %d discharged, %d functions (%d proved, %d trusted), %d violation(s), %d known finding(s), %.1fs\n",
-		cfg.ID, tier, nObl, nDis, len(results)+len(bresults), countStatus(fev, "proved"), len(trustedFuncs), len(violations), len(knownHit), wall)
+	fmt.Printf("%s tier=%s: %d obligations, %d discharged, %d functions (%d proved, %d bounded, %d trusted), %d violation(s), %d known finding(s), %.1fs\n",
+		cfg.ID, tier, nObl, nDis, len(results)+len(bresults), countStatus(fev, "proved"), countStatus(fev, "bounded"), len(trustedFuncs), len(violations), len(knownHit), wall)
 	if len(violations) > 0 {
 		return 1
 	}
